@@ -2,7 +2,8 @@
 
 One private directory tree holds the whole file-name product (stems with dots, upper case
 and regex metacharacters x look-alike extensions, at depths 0-2), a second component
-directory with overlapping relative names, the `components/` directory of a generated app,
+directory with overlapping relative names, two component directories of one generated app (two
+`app_dirs` entries),
 a sibling directory whose name has the component directory as a prefix and a file above
 the root.  Every allowed/forbidden configuration of the tier (documented defaults, empty
 list, every single entry and - per tier - every pair over an alphabet of suffix strings
@@ -81,6 +82,7 @@ EXTS = [
 DEPTH_DIRS = ["", "sub", "sub/deep"]
 ROOT2_FILES = ["a.js", "a.py", "only2.js", "only2.py", "only2.tarXgz", "sub/a.js", "sub/only2.css", "sub/deep/a.html", "we(ird.c"]
 APP_FILES = ["a.js", "app.js", "app.py", "sub/app.css", "sub/app.html", "sub/deep/app.min.js", "sub/deep/app.c"]
+APP2_FILES = ["a.js", "app2.css", "app2.py", "sub/app2.js"]  # a second component directory of the SAME app (two app_dirs entries)
 ROOT_MARK = "c17root"  # part of the temp dir name: a pattern that only an absolute path can match
 
 
@@ -91,7 +93,8 @@ def build_tree():
     root2 = os.path.join(proj, "more")
     appdir = os.path.join(top, "apps", "c17app")
     approot = os.path.join(appdir, "c17comps")
-    files = {"r1": [], "r2": [], "app": []}
+    approot2 = os.path.join(appdir, "c17more")
+    files = {"r1": [], "r2": [], "app": [], "app2": []}
 
     def put(root, label, rel):
         p = os.path.join(root, rel)
@@ -113,12 +116,14 @@ def build_tree():
         pass
     for rel in APP_FILES:
         put(approot, "app", rel)
+    for rel in APP2_FILES:
+        put(approot2, "app2", rel)
     put(os.path.join(proj, "components_evil"), "evil", "e.js")
     put(proj, "above", "above.js")
     put(proj, "above", "a.js")
     for k in files:
         files[k].sort()
-    return {"top": top, "proj": proj, "roots": {"r1": root1, "r2": root2, "app": approot},
+    return {"top": top, "proj": proj, "roots": {"r1": root1, "r2": root2, "app": approot, "app2": approot2},
             "apps_path": os.path.join(top, "apps"), "files": files}
 
 
@@ -226,8 +231,8 @@ class Env:
         roots = tree["roots"]
         kw = {"BASE_DIR": tree["proj"]}
         if layout == "multi":
-            self.labels = ["r1", "r2", "app"]
-            self.base = {"dirs": [roots["r1"], roots["r2"]], "app_dirs": ["c17comps"]}
+            self.labels = ["r1", "r2", "app", "app2"]
+            self.base = {"dirs": [roots["r1"], roots["r2"]], "app_dirs": ["c17comps", "c17more"]}
             kw["INSTALLED_APPS"] = ["django_components", "c17app"]
         elif layout == "single":
             self.labels = ["r1"]
@@ -297,7 +302,7 @@ def traversal_queries(tree, labels):
     """(query, note) pairs whose target may lie outside; judged by the containment oracle only."""
     roots = tree["roots"]
     qs = []
-    probe = {"r1": ["a.js", "a.py", "sub/a.js", "sub/deep/we(ird.tar.gz", "x+y.c++"], "r2": ROOT2_FILES[:4], "app": APP_FILES[:3]}
+    probe = {"r1": ["a.js", "a.py", "sub/a.js", "sub/deep/we(ird.tar.gz", "x+y.c++"], "r2": ROOT2_FILES[:4], "app": APP_FILES[:3], "app2": APP2_FILES[:3]}
     for lab in labels:
         base = os.path.basename(roots[lab])
         for rel in probe[lab]:
